@@ -140,13 +140,24 @@ func (p *Program) mayBeNil(v ssa.Value, b *ssa.BasicBlock) bool {
 	if p.isNonNilError(v) {
 		return false
 	}
+	sameLoad := func(x ssa.Value) bool {
+		// two loads of one local variable with no write in between are one value
+		ux, ok1 := x.(*ssa.UnOp)
+		uv, ok2 := v.(*ssa.UnOp)
+		if !ok1 || !ok2 || ux.Op != token.MUL || uv.Op != token.MUL {
+			return false
+		}
+		cx, ok3 := ux.X.(*ssa.Alloc)
+		cy, ok4 := uv.X.(*ssa.Alloc)
+		return ok3 && ok4 && cx == cy && (noWriteBetween(cx, ux, uv) || noWriteBetween(cx, uv, ux))
+	}
 	factNonNil := func() bool {
 		cv := canonLoad(v)
 		for _, f := range factsAt(b) {
 			if f.Op != token.NEQ {
 				continue
 			}
-			if (isNilConst(f.Y) && (f.X == v || canonLoad(f.X) == cv)) || (isNilConst(f.X) && (f.Y == v || canonLoad(f.Y) == cv)) {
+			if (isNilConst(f.Y) && (f.X == v || canonLoad(f.X) == cv || sameLoad(f.X))) || (isNilConst(f.X) && (f.Y == v || canonLoad(f.Y) == cv || sameLoad(f.Y))) {
 				return true
 			}
 		}
@@ -173,14 +184,8 @@ func (p *Program) mayBeNil(v ssa.Value, b *ssa.BasicBlock) bool {
 	case *ssa.Call:
 		// a status code converted to error: MakeInterface handled above
 	}
-	cv := canonLoad(v)
-	for _, f := range factsAt(b) {
-		if f.Op != token.NEQ {
-			continue
-		}
-		if (isNilConst(f.Y) && (f.X == v || canonLoad(f.X) == cv)) || (isNilConst(f.X) && (f.Y == v || canonLoad(f.Y) == cv)) {
-			return false
-		}
+	if factNonNil() {
+		return false
 	}
 	// facts at the block's own terminating edge are not included; callers
 	// pass the block in which the value is used.
@@ -399,6 +404,12 @@ func recvName(o *types.Func) string {
 // cut) from the start of `from` to the end of `to`, restricted to blocks that
 // can reach `to`.  ok is false when `to` is not reachable.
 func pathCountTo(from, to *ssa.BasicBlock, match func(ssa.Instruction) bool) (min, max int, ok bool) {
+	if hasThreadableBranch(from.Parent()) {
+		if mn, mx, okE := pathEnum(from, to, match, nil); okE {
+			reach := reachableFrom(from, func(a, b *ssa.BasicBlock) bool { return isBackEdge(a, b) })
+			return mn, mx, reach[to]
+		}
+	}
 	// blocks that can reach `to`
 	can := map[*ssa.BasicBlock]bool{to: true}
 	work := []*ssa.BasicBlock{to}
